@@ -6,3 +6,4 @@ import CruxVerif.Props.C07
 #print axioms Props.C07.poll_parks
 #print axioms Props.C07.done_iff
 #print axioms Props.C07.host_sees_done_exactly
+#print axioms Props.C07.evict_complete_dropped_request_partial
